@@ -36,14 +36,13 @@ theorem C08_pe_datum_gap_pe_witness (alg alg' : Alg) (halg : alg ≠ .svd) (halg
   obtain ⟨a, ha⟩ := npG_answers [1] (Or.inl rfl) alg halg
   obtain ⟨a', ha'⟩ := npG_answers [2] (Or.inr rfl) alg' halg'
   have ha'' : netSolve alg' { npO with minx := (npG [2]).minx } = .ok a' := ha'
-  have hna : ∀ ob ∈ revisedObs uO.net, NoAlias ob := robsO_noalias .constrained .free
   have hg : InputGap alg (toProblem npO).A ((npO.m0 * npO.m0) • PcG [1]) (toProblem npO).S (1 / 8192) :=
     (InputGap.of_ne_svd halg).2 ⟨Props.C01.C01_gap_thresholds_default, npG_rankGap [1]⟩
   have hg' : InputGap alg' (toProblem npO).A ((npO.m0 * npO.m0) • PcG [1])
       ((Reg.subset (npG [2]).minx).toFinset npO.n) (1 / 8192) :=
     (InputGap.of_ne_svd halg').2 ⟨Props.C01.C01_gap_thresholds_default, npG_gap [1],
       fun g hg hne => (hne (npG_ker [1] g hg)).elim⟩
-  exact ⟨a, a', ha, ha'', C08_pe_datum_gap realTrig alg alg' netWobs netWobs' datumEq_obs npO (npG [2]) uO uO' peO peO' hna
+  exact ⟨a, a', ha, ha'', C08_pe_datum_gap realTrig alg alg' netWobs netWobs' datumEq_obs npO (npG [2]) uO uO' peO peO'
     (npG_m0 [1]) (PcG [1]) (npG_sigma_inv [1]) hg hg' a a' ha ha''⟩
 
 /-- two DIFFERENT algorithms and two different lists -/
